@@ -60,6 +60,21 @@ pub enum Mop {
     /// Declare a boundary port (`b_in` / `b_out`) in the footprint. No graph
     /// effect: ports only take part in admission.
     ClaimPort { port: u64, out: bool },
+    /// Delete an edge and recreate it under the same id in one rewrite (new source
+    /// and/or target), optionally re-setting the attachment it carried (value read
+    /// from the pre-state) and optionally deleting the old source node together with
+    /// its other incident edges `(id, from)`. This is what a rule has to emit to move
+    /// an edge off a node it deletes: `DeleteEdge`, `DeleteNode`, `UpsertEdge`,
+    /// `SetAttachment`.
+    RecreateEdge {
+        edge: EdgeId,
+        old_from: NodeId,
+        new_from: NodeId,
+        to: NodeId,
+        tys: [TypeId; 2],
+        restore_att: bool,
+        delete_old_from: Option<Vec<(EdgeId, NodeId)>>,
+    },
 }
 
 #[derive(Clone, Debug)]
@@ -263,6 +278,24 @@ pub fn eval<R: Reader>(p: &Program, r: &R) -> (Vec<Effect>, bool) {
             }),
             Mop::Panic => return (out, true),
             Mop::ClaimPort { .. } => {}
+            Mop::RecreateEdge { edge, old_from, new_from, to, tys, restore_att, delete_old_from } => {
+                let d = acc.digest(which);
+                out.push(Effect::EdgeDelete(w, *edge));
+                out.push(Effect::EdgeUpsert(w, *edge, *new_from, *to, tys[(d[0] & 1) as usize]));
+                if *restore_att {
+                    let v = r.eatt(edge);
+                    acc.feed(4, &aval_bytes(v.as_ref()));
+                    if let Some(v) = v {
+                        out.push(Effect::SetEAtt(w, *edge, Some(v)));
+                    }
+                }
+                if let Some(inc) = delete_old_from {
+                    for (e2, _from) in inc {
+                        out.push(Effect::EdgeDelete(w, *e2));
+                    }
+                    out.push(Effect::NodeDelete(w, *old_from));
+                }
+            }
             Mop::ForeignSetNodeAtt { warp, node } => {
                 let d = acc.digest(which);
                 out.push(Effect::SetNAtt(*warp, *node, Some(AVal::Atom(make_type_id("verif/foreign"), d.to_vec()))));
@@ -336,6 +369,12 @@ impl Program {
                 Mop::DeleteEdge { edge, from } => {
                     m.insert(*edge, *from);
                 }
+                Mop::RecreateEdge { edge, old_from, delete_old_from, .. } => {
+                    m.insert(*edge, *old_from);
+                    for (e, f) in delete_old_from.iter().flatten() {
+                        m.insert(*e, *f);
+                    }
+                }
                 _ => {}
             }
         }
@@ -387,6 +426,23 @@ impl Program {
                 }
                 Mop::OpenPortalEdge { edge, .. } => {
                     fp.a_write.insert(AttachmentKey::edge_beta(ek(edge)));
+                }
+                Mop::RecreateEdge { edge, old_from, new_from, to: _, tys: _, restore_att, delete_old_from } => {
+                    fp.e_write.insert(ek(edge));
+                    fp.n_write.insert(nk(old_from));
+                    fp.n_write.insert(nk(new_from));
+                    fp.a_write.insert(AttachmentKey::edge_beta(ek(edge)));
+                    if *restore_att {
+                        fp.a_read.insert(AttachmentKey::edge_beta(ek(edge)));
+                    }
+                    if let Some(inc) = delete_old_from {
+                        fp.a_write.insert(AttachmentKey::node_alpha(nk(old_from)));
+                        for (e, from) in inc {
+                            fp.e_write.insert(ek(e));
+                            fp.n_write.insert(nk(from));
+                            fp.a_write.insert(AttachmentKey::edge_beta(ek(e)));
+                        }
+                    }
                 }
                 Mop::ClaimPort { port, out } => {
                     if *out {
